@@ -45,6 +45,16 @@ NEEDS = {
  "C16c": "a start key that begins with ',' compared with a start key beginning with a byte below ','",
  "C19c": "Close while a sender is between its done check and its write: the call registers and writes after Close took the snapshot of outstanding calls and before the socket is shut",
  "C20c": "a healthy connection serving exactly one region which is replaced (split/merge/re-lookup) by a region on the same server that does not host hbase:meta",
+ "C02c": "a flush that fails without failing the connection (a batch that cannot be marshalled), after which the batching goroutine keeps using a multi object that is also in the pool",
+ "C03c": "batchable calls handed over through a buffered channel: a connection failure while calls sit in the buffer, or calls queued after the failure",
+ "C05c": "one multi-request in which a cell-carrying mutation is followed, for the same region, by a mutation without any value (whole-row delete)",
+ "C06c": "a reversed scan crossing a region boundary whose start key ends in 0x00, and a row equal to that key minus trailing zero bytes",
+ "C11c": "a multi response with a real cellblock whose result entry has an index out of range or of a dropped call (validation moved after the cellblock walk)",
+ "C12c": "a call whose key is exactly the stop key of a cached region while the region starting there is not cached",
+ "C13c": "two direct senders on one region client, both written; the read-deadline call of one fails on the dying connection and leaves a mutex locked; then cancellation",
+ "C14c": "the first response of a region scanner is an empty more-in-region batch (heartbeat on open)",
+ "C17c": "a request whose context ends by its own deadline (not cancel) while a lookup keeps failing",
+ "C18c": "two direct senders both stalled between their write and inFlightUp while both responses are read (counter 0 -> -1 -> -2 -> -1 -> 0), then an idle period",
  "C18": "an unbatched request whose context is cancelled before the (late) response arrives, then an idle period longer than the read timeout",
 }
 CHECKS = {  # seed -> checks to try (own property first)
@@ -53,6 +63,7 @@ CHECKS = {  # seed -> checks to try (own property first)
  "C14": ["C14"], "C15": ["C15", "C05"], "C19": ["C19", "C20"], "C20": ["C20", "C19"], "C02b": ["C02"], "C03b": ["C03"], "C09b": ["C09"], "C05b": ["C05"], "C06b": ["C06"], "C11b": ["C11"], "C12b": ["C12", "C02"], "C13b": ["C13"], "C14b": ["C14"], "C17b": ["C17", "C13"], "C18b": ["C18"], "C16": ["C16", "C01"], "C17": ["C17"], "C18": ["C18"],
  "C10c": ["C10"], "C01c": ["C01"], "C04c": ["C04", "C09"], "C07c": ["C07"], "C08c": ["C08"], "C09c": ["C09"], "C15c": ["C15"],
  "C16c": ["C16"], "C19c": ["C19", "C03"], "C20c": ["C20", "C19"],
+ "C02c": ["C02"], "C03c": ["C03"], "C05c": ["C05"], "C06c": ["C06"], "C11c": ["C11"], "C12c": ["C12", "C01"], "C13c": ["C13", "C03"], "C14c": ["C14"], "C17c": ["C17", "C13"], "C18c": ["C18"],
 }
 names = sys.argv[1:] or sorted(os.listdir('/verif/seeded'))
 rows = []
